@@ -1,5 +1,6 @@
 import JominiModel.Spec.BinDocText
 import JominiModel.Proofs.BinDocText
+import JominiModel.Proofs.DateLeaf
 /-
 C10 — text and binary renderings of one document deserialize to the same value.
 Stated at the level of the two reference meanings `valueOfText` / `valueOfBin` of ONE logical
